@@ -42,6 +42,9 @@ type flowSt struct {
 	haveTCP bool
 	// handshaken: the connection's sequence numbers come from a handshake the world produced itself
 	handshaken bool
+	// tsNegotiated: the world's own SYN-ACK carried a well-formed timestamp option (RFC 7323: every later segment
+	// of the connection then carries one); tsMissing: already reported for this flow
+	tsNegotiated, tsMissing bool
 }
 
 func NewNetWorld(scripts ...FlowScript) *NetWorld {
@@ -328,6 +331,20 @@ func (n *NetWorld) destReply(fs *flowSt, p *Probe, h HopSpec) ([]byte, Tag) {
 			}
 			return tcpReply(from, p.DPort, local, p.SPort, fs.srvSeq+1, fs.rcvNxt, TCPAck, opts), tag
 		}
+		if fs.handshaken && fs.tsNegotiated && !fs.tsMissing {
+			hasTS := false
+			if opts, err := ParseTCPOptions(p.TCP.Options); err == nil {
+				for _, o := range opts {
+					if o.Kind == 8 && len(o.Data) == 8 {
+						hasTS = true
+					}
+				}
+			}
+			if !hasTS {
+				fs.tsMissing = true
+				n.Problems = append(n.Problems, fmt.Sprintf("flow %s: SACK probe TTL %d carries no timestamp option although this connection's handshake negotiated timestamps", fs.key, p.TTL))
+			}
+		}
 		if why := fs.outOfWindow(p); why != "" {
 			// what a real receiver does with a segment that does not belong to the connection's window: a bare
 			// acknowledgement, no SACK block. The probe is the problem, not the reply.
@@ -566,6 +583,7 @@ func (s *SackServer) synAcks(n *NetWorld, remote netip.AddrPort) []Sched {
 	conn := uint32(len(s.Remotes) - 1)
 	clientNxt, serverISN := c.ClientNxt+conn*0x10000019, c.ServerISN+conn*0x02000033
 	fs.haveTCP, fs.handshaken, fs.rcvNxt, fs.srvSeq, fs.hasTS, fs.tsVal = true, true, clientNxt, serverISN, c.TS, 0x01020304
+	fs.tsNegotiated = c.TS && !c.TruncTS && !c.NoSynAck
 	var out []Sched
 	opts := []byte{2, 4, 0xff, 0xd7}
 	if c.Permit {
